@@ -317,8 +317,9 @@ theorem C13_inline_array_shape (items : List (Str × List Tok)) (sh : List Nat) 
     dimensions, provided the declared dimension admits the shape; (3) `parse` on the one-line program returns
     exactly one parameter: the name, type, width/sign, dimension and unit written, and that array value.
     (`hunit`: a unit is written only on int/float lines and is known; `hel`: the element casts succeed — discharged
-    for integer and boolean elements by `C13_array_int_elements`, `C13_array_bool_elements`; `C13_int_array_text`
-    is the instance without any hypothesis on the elements.) -/
+    for integer, float and boolean elements by `C13_array_int_elements`, `C13_array_float_elements`,
+    `C13_array_bool_elements`; `C13_int_array_text` and `C13_float_array_text` are the instances without any
+    hypothesis on the elements.) -/
 theorem C13_inline_array_text (tbl : List UnitRow) (k : Nat) (nm : Str) (a : Nat) (ty : TyD) (dims : Option (List DimD))
     (b c : Nat) (s : Str) (sh : List Nat) (toks : List Tok) (atoms : List Atom) (ds : List Dim)
     (unit cm : Option (Nat × Str))
@@ -401,6 +402,40 @@ theorem C13_int_array_text (tbl : List UnitRow) (k : Nat) (nm : Str) (a : Nat) (
   (C13_inline_array_text tbl k nm a (.int uns w) dims b c s sh _ _ ds unit cm hn hd hu htail
     (fun n x h => ⟨.inl rfl, hunit n x h⟩) hr hsh (rendered_int_plain its hok hr) hds
     (C13_array_int_elements its hok).2 hcd).2.2
+
+/-- **Element casts of float arrays** (`np.array(json value, dtype=float)`).  An element written as a JSON number
+    (optional `-`, integer part without leading zero, optional `.digits`, optional exponent `e|E[+-]digits`;
+    integer literals included) is one array word and is stored as the rational number the literal denotes. -/
+theorem C13_array_float_elements (fs : List FloatD) (h : ∀ f ∈ fs, f.Ok ∧ f.Json) :
+    (∀ f ∈ fs, TokOk f.render) ∧
+    (fs.map (fun f => Tok.bare f.render)).mapM (tokAtom .float) = .ok (fs.map (fun f => Atom.num f.value)) :=
+  ⟨fun f hf => floatD_tokOk f (h f hf).1 (h f hf).2,
+   mapM_ok_map (tokAtom .float) _ _ fs (fun f hf => tokAtom_floatD f (h f hf).1 (h f hf).2)⟩
+
+example : (FloatD.mk (some true) "1".toList (some "5".toList) (some (true, some true, "3".toList))).Ok ∧
+    (FloatD.mk (some true) "1".toList (some "5".toList) (some (true, some true, "3".toList))).Json :=
+  ⟨⟨by decide, by intro x hx; cases hx; decide, .inl (by decide), by intro cap es ed h; cases h; decide⟩,
+   ⟨by decide, by decide, by decide, by intro x hx; cases hx; decide⟩⟩
+
+/-- **Float arrays of any nesting depth, from the text to the value**: the one-line program
+    `name float[NN][dims] = [[x,…],[…]] [unit] [# comment]`, the array a rectangular nested list of JSON numbers,
+    parses to exactly one parameter whose value is the array of the numbers denoted, in row-major order, with
+    shape = the nesting dimensions. -/
+theorem C13_float_array_text (tbl : List UnitRow) (k : Nat) (nm : Str) (a : Nat) (w : Option FloatW)
+    (dims : Option (List DimD)) (b c : Nat) (s : Str) (sh : List Nat) (fs : List FloatD) (ds : List Dim)
+    (unit cm : Option (Nat × Str))
+    (hn : NameOk nm) (hd : DimsOk dims) (hu : ∀ n x, unit = some (n, x) → UnitOk x)
+    (htail : NoEsc (renderTail unit cm))
+    (hunit : ∀ n x, unit = some (n, x) → tbl.any (fun r => r.name = x) = true)
+    (hr : Rendered s sh (fs.map (fun f => Tok.bare f.render))) (hsh : sh ≠ []) (hok : ∀ f ∈ fs, f.Ok ∧ f.Json)
+    (hds : dimsValue dims = some ds) (hcd : checkDims ds sh = true) :
+    parseLines (mkParams tbl)
+        [List.replicate k ' ' ++ (definePrefix nm a (.float w) dims b c ++ (s ++ renderTail unit cm))] =
+      .ok [{ name := nm, ty := .float, info := (TyD.float w).info, dims := some ds, units := unit.map Prod.snd,
+             value := some (.array sh (fs.map (fun f => Atom.num f.value))), declared := false }] :=
+  (C13_inline_array_text tbl k nm a (.float w) dims b c s sh _ _ ds unit cm hn hd hu htail
+    (fun n x h => ⟨.inr rfl, hunit n x h⟩) hr hsh (rendered_float_plain fs (fun f hf => (hok f hf).1) hr) hds
+    (C13_array_float_elements fs hok).2 hcd).2.2
 
 /-- **Escaped quotes.**  A definition whose double-quoted value is written with `\\"` for every quote
     character of the intended text `s` (`s` itself free of backslash, newline and `$`): the lexer marks
